@@ -39,7 +39,7 @@ CHECKS.update({
                 text="Each case is one change away from a legal parent (parents are checked to compile) on a gapless and a with-holes enum, in one or "
                      "several attributes; every mutated case must fail to compile."),
     "C14": dict(engine="E2 rustc oracle", design="§5 C14", note=E2_NOTE,
-                technique="exhaustive enumeration of all n! declaration orders (n<=3/4) x implicit/explicit patterns x name assignments x sorted forms, rustc accept/reject compared with the reference predicate",
+                technique="exhaustive enumeration of all n! declaration orders (n<=3/4) x implicit/explicit patterns x 15 name assignments x sorted forms; every case expanded by the real parser in-process, rustc accept/reject (quick: fixed 1-in-6 slice + every disagreement; thorough: all) compared with the reference predicate",
                 text="compiles <=> strictly ascending discriminants (sorted(value)) / strictly ascending byte-wise names after renaming (sorted(name)) / both; "
                      "without sorted every order compiles."),
 })
